@@ -12,7 +12,8 @@ BASE_NORETURN = {'longjmp', 'abort', 'exit', '_exit', 'siglongjmp', '__assert_fa
 
 
 class CFG:
-    def __init__(self, fn, noreturn=frozenset(), fold_locals=True):
+    def __init__(self, fn, noreturn=frozenset(), fold_locals=True, lower_ternary=False):
+        self.lower_ternary = lower_ternary
         self.fn = fn
         self.name = fn['name']
         self.noreturn = set(noreturn) | BASE_NORETURN
@@ -143,6 +144,14 @@ class CFG:
         if k == 'null':
             return dangling
         if k == 'expr':
+            if self.lower_ternary:
+                t = ir.top_nocast(s['expr'])
+                if t[0] == 'assign' and t[1] == '=' and ir.top_nocast(t[3])[0] == 'cond':
+                    c = ir.top_nocast(t[3])
+                    tt, ff = self._branch(c[1], dangling, s)
+                    a = self._stmt(dict(s, expr=('assign', '=', t[2], c[2])), tt, brk, cont)
+                    b = self._stmt(dict(s, expr=('assign', '=', t[2], c[3])), ff, brk, cont)
+                    return a + b
             return self._simple('stmt', s['expr'], s, dangling)
         if k == 'decl':
             for d in s['decls']:
@@ -151,9 +160,22 @@ class CFG:
                 e = None
                 if d['init'] is not None:
                     e = ('assign', '=', ('local', d['name'], d['id']), d['init'])
+                if self.lower_ternary and d['init'] is not None and ir.top_nocast(d['init'])[0] == 'cond':
+                    c = ir.top_nocast(d['init'])
+                    tt, ff = self._branch(c[1], dangling, s)
+                    a = self._simple('stmt', ('assign', '=', ('local', d['name'], d['id']), c[2]), s, tt, decl=d)
+                    b = self._simple('stmt', ('assign', '=', ('local', d['name'], d['id']), c[3]), s, ff, decl=d)
+                    dangling = a + b
+                    continue
                 dangling = self._simple('stmt', e, s, dangling, decl=d)
             return dangling
         if k == 'return':
+            if self.lower_ternary and s['expr'] is not None and ir.top_nocast(s['expr'])[0] == 'cond':
+                c = ir.top_nocast(s['expr'])
+                tt, ff = self._branch(c[1], dangling, s)
+                self._stmt(dict(s, expr=c[2]), tt, brk, cont)
+                self._stmt(dict(s, expr=c[3]), ff, brk, cont)
+                return []
             return self._simple('ret', s['expr'], s, dangling)
         if k == 'if':
             t, f = self._branch(s['cond'], dangling, s)
